@@ -3,6 +3,7 @@ import itertools
 import random
 
 from . import searchfam, search
+from . import common
 from .search import TYPES, members
 
 
@@ -79,7 +80,7 @@ def class_vector_cases(ck, tier):
   """Multisets of eligibility row types (0-4 geos per class) x size-range / geo-ratio settings."""
   rng = random.Random(ck.seed * 17 + 11)
   out = []
-  n_cases = 150 if tier == 'quick' else 2500
+  n_cases = common.sz(tier, 150, 2500)
   for k in range(n_cases):
     counts = {t: rng.choice([0, 0, 1, 1, 2, 3, 4]) for t in TYPES}
     while sum(counts.values()) > 8 or sum(counts.values()) == 0:
